@@ -118,6 +118,19 @@ PROPS = {
         ],
         "assumptions": ["a browser tokenises the page as the WHATWG tokenizer does; tree construction (foster parenting, implied end tags) is not modelled - the page theorem fixes the complete token stream, from which exactly one form with two hidden inputs follows for any conformant tree builder"],
     },
+    "C18": {
+        "modules": ["SamlModel.Props.C18"],
+        "translated": ["InflateAndDecode"],
+        "trusted_base": COMMON_TRUST + [
+            "encoding/xml is not translated: its struct marshaller (marshalValue / marshalStruct / marshalAttr: naming precedence, xmlns emission, attr / omitempty / chardata / innerxml / any, nil pointers, slices) and its printer and escaper are hand-modelled in Lib.XmlMarshal / Lib.Xml / Lib.XmlEscape as an interpreter of the wire schema; the schema itself (Gen.Schema: every struct type of pkg/provider/xml/**, field order, tags as encoding/xml's typeinfo reads them) is regenerated from the source on every run; model and real samlxml.Marshal are compared byte for byte on randomly filled values of every root type (`lib marshal`)",
+            "the XML tokenizer of the theorems (Lib.Xml.step: declaration / PI, tags, attributes with both quote styles, empty-element tags, character data, predefined entities and numeric references, line-end and attribute-value normalisation) is written from the XML 1.0 specification and compared with encoding/xml's decoder on every document (`lib xmltok`); comments, DOCTYPE and CDATA sections are skipped to the next '>' (never emitted: no wire type has a comment or cdata field, no value can open markup: C18_no_markup)",
+            "Go strings are decoded to runes by Lib.Utf8.goRunes (invalid bytes become U+FFFD as in utf8.DecodeRune); that decoder and the UTF-8 encoder of the driver are glue, exercised by the same comparisons",
+            "compress/flate is an oracle: that inflating DEFLATE output yields the input is the hypothesis hflate of C18_codec_roundtrip, checked on every payload of the run; DeflateAndBase64 is a fingerprinted three-line function modelled as b64encode . deflate",
+            "the library's struct *decoders* (xml.Unmarshal into the wire types) are not modelled: the harness checks decode-then-re-encode on the implementation only",
+        ],
+        "assumptions": ["names of elements and attributes come from the schema (schema_names_valid) or from a runtime XMLName value of an untagged type; the IdP sets no such value except xml.Name{Local: \"md\"} on a type whose XMLName tag takes precedence; namesOk is evaluated on every marshalled tree of the run",
+                        "the codec round trip holds up to the decoder's size limit (10 MiB, introduced by the C14 repair); beyond it the decoder returns an error, never a truncated message (C18_codec_oversize)"],
+    },
     "C19": {
         "modules": ["SamlModel.Props.C19"],
         "translated": ["ValidateIssuer", "ValidateIssuerPath", "devLocalAllowed", "hasQueryOrFragment", "dynamicIssuer"],
